@@ -612,6 +612,10 @@ acquire_stop(struct AcquireRuntime* self_)
                 TRACE("[stream: %d] Monitor flushed %llu bytes", i, nbytes);
             } while (nbytes);
         }
+        // Nothing of this acquisition may be delivered once stop has
+        // returned, not even to a client that maps for the first time now: a
+        // reader that joins starts at the origin of the current lap.
+        channel_rewind(&video->sink.in);
     }
     self->state = DeviceState_Armed;
 
